@@ -147,6 +147,67 @@ theorem self_redirect_falls_to_hostless_routes (cfg : C03.Cfg) (view : Route.Tar
   rw [hl]
   exact lookupHosts_first_unskipped _ [] [] hpre hk hns
 
+/-! ### a matching host that is no self-redirect is never passed over (round 4) -/
+
+theorem lookupHosts_some_of_mem {look : Route.Str → Option (Route.Route × Route.Target)} {skip : Route.Target → Bool}
+    (hs post : List Route.Str) {k : Route.Str} {r : Route.Route} {tg : Route.Target}
+    (hk : k ∈ hs) (hl : look k = some (r, tg)) (hns : skip tg = false) :
+    ∃ h r' tg', C03.lookupHosts look skip (hs ++ post) none = some (h, r', tg') ∧ h ∈ hs ∧
+      look h = some (r', tg') ∧ skip tg' = false := by
+  induction hs with
+  | nil => cases hk
+  | cons x xs ih =>
+    simp only [List.cons_append, C03.lookupHosts]
+    cases hx : look x with
+    | none =>
+      have hk' : k ∈ xs := by
+        rcases List.mem_cons.1 hk with rfl | h
+        · rw [hx] at hl; cases hl
+        · exact h
+      obtain ⟨h, r', tg', e, hm, hl', hs'⟩ := ih hk'
+      exact ⟨h, r', tg', e, List.mem_cons_of_mem _ hm, hl', hs'⟩
+    | some p =>
+      obtain ⟨r0, t0⟩ := p
+      by_cases hsk : skip t0 = true
+      · have hk' : k ∈ xs := by
+          rcases List.mem_cons.1 hk with rfl | h
+          · rw [hx] at hl; cases hl; rw [hns] at hsk; cases hsk
+          · exact h
+        obtain ⟨h, r', tg', e, hm, hl', hs'⟩ := ih hk'
+        simp only [hsk, if_true]
+        exact ⟨h, r', tg', e, List.mem_cons_of_mem _ hm, hl', hs'⟩
+      · have hsk' : skip t0 = false := by simpa using hsk
+        simp only [hsk', Bool.false_eq_true, if_false]
+        exact ⟨x, r0, t0, rfl, by simp, hx, hsk'⟩
+
+/-- **next_matching_host_is_tried.** The property's last sentence read the other way round: if *some* host key that
+matches the request (a key of C03's host list, whatever its position) has a route for the request path whose
+target is no redirect back to the request itself, the request is answered from a matching host key — never by
+the host-less routes and never with "no route" — and the answering target is itself no self-redirect. (This is
+the statement `Model.C13Table.specAnswered` evaluates on the real proxy's answer in `c13.http`; the seeded change
+that made `matchingHostNoGlob` return only the first matching key breaks exactly this.) -/
+theorem next_matching_host_is_tried (cfg : C03.Cfg) (view : Route.Target → C13.RTarget) (t : Route.Table) (q : CReq)
+    {k : Route.Str} {r : Route.Route} {tg : Route.Target}
+    (hk : k ∈ Props.C03.matched cfg t q.r03) (hl : Props.C03.look cfg t q.r03 k = some (r, tg))
+    (hns : skipFor view q tg = false) :
+    ∃ h r' tg', Lookup cfg view t q = some (h, r', tg') ∧ h ∈ Props.C03.matched cfg t q.r03 ∧
+      Props.C03.look cfg t q.r03 h = some (r', tg') ∧ skipFor view q tg' = false := by
+  unfold Lookup C03.Lookup
+  have hl' : C03.hostList (cfgFor cfg view q) t q.r03 = Props.C03.matched cfg t q.r03 ++ [[]] :=
+    Props.C03.hostList_eq (cfgFor cfg view q) t q.r03
+  rw [hl']
+  exact lookupHosts_some_of_mem (Props.C03.matched cfg t q.r03) [[]] hk hl hns
+
+/-- … in particular a plain (non-redirect) route under a matching host key always wins over the host-less routes,
+whatever redirects stand before it -/
+theorem plain_route_under_matching_host_is_reached (cfg : C03.Cfg) (view : Route.Target → C13.RTarget) (t : Route.Table)
+    (q : CReq) {k : Route.Str} {r : Route.Route} {tg : Route.Target}
+    (hk : k ∈ Props.C03.matched cfg t q.r03) (hl : Props.C03.look cfg t q.r03 k = some (r, tg))
+    (hplain : (view tg).code = 0) :
+    ∃ h r' tg', Lookup cfg view t q = some (h, r', tg') ∧ h ∈ Props.C03.matched cfg t q.r03 :=
+  let ⟨h, r', tg', e, hm, _, _⟩ := next_matching_host_is_tried cfg view t q hk hl (by simp [skipFor, hplain])
+  ⟨h, r', tg', e, hm⟩
+
 /-! ### no redirect loop -/
 
 /-- **no_redirect_loop_for_single_route.** If every route that matches the request — under any key of the
@@ -206,6 +267,19 @@ example : answer cfg view T (q false) = some (301, C13.lit "https://example.com/
 example : answer cfg view T (q true) = none ∧ (Lookup cfg view T (q true)).map (·.2.2.service) = some "app".toList := by decide
 /-- HTTPS and no fallback route: no route, not a loop (D18c) -/
 example : Lookup cfg view (T.take 1) (q true) = none := by decide
+
+/-- the documented pair `example.com:80/ → https redirect`, `example.com/ → app` next to a host-less route, host globs
+disabled, `X-Forwarded-Proto: https`: both keys match, the redirect is skipped, `example.com` answers (seeded m11's input) -/
+def T2 : Table :=
+  [("example.com:80".toList, [{ host := "example.com:80".toList, path := "/".toList, targets := [redirectTg] }]),
+   ("example.com".toList, [{ host := "example.com".toList, path := "/".toList, targets := [appTg] }]),
+   ([], [{ host := [], path := "/".toList, targets := [{ appTg with service := "other".toList }] }])]
+
+def qx : CReq := { q false with xfp := C13.lit "https" }
+
+example : Props.C03.matched cfg T2 qx.r03 = ["example.com:80".toList, "example.com".toList] ∧
+    skipFor view qx redirectTg = true ∧
+    (Lookup cfg view T2 qx).map (fun x => (x.1, x.2.2.service)) = some ("example.com".toList, "app".toList) := by decide
 
 end Ex
 
